@@ -31,6 +31,9 @@ package ingress
 //@ ensures verified_means_nothing_written: result0 ==> result1 == nil && #Patch == 0 && #Create == 0 && #Update == 0 && #Delete == 0
 //@ ensures error_means_not_verified: result1 != nil ==> !result0
 //@ ensures stable_ingress_never_written: #Update == 0 && #Delete == 0 && #Patch <= 1 && #Create <= 1
+// (F15) "verified" while the canary Ingress does not exist is only right for a step that asks for nothing: zero weight,
+// no matches, no header modifier - otherwise entering the step first and entering it after another step would differ.
+//@ ensures verified_without_canary_ingress_only_for_an_empty_step: result0 && #Get == 1 && isNotFound(#Get.ret0) ==> len(strategy.Matches) == 0 && strategy.RequestHeaderModifier == nil
 
 // Finalise deletes the canary Ingress (and nothing else) and reports "modified" only when it did.
 //@ func (*ingressController).Finalise
